@@ -21,6 +21,9 @@ fn probe(real_channel: bool, real_cond: bool) {
     s2::install_publisher(&mut p, None, sp::mask_from_bits(0), alloc::vec![w]);
     let now1 = s2::any_time();
     kani::assume(a <= now1);
+    s2::plan::<crate::dcps::dcps_domain_participant::user_defined_data_writer::UserDefinedDataWriter>(0, 1, true);
+    s2::plan::<crate::dcps::dcps_domain_participant::data_writer_entity::RegisteredInstanceInfo>(1, 1, true);
+    s2::plan::<crate::infrastructure::instance::InstanceHandle>(2, 1, false);
     let wa = s2::sender_addr(&p.domain_participant.user_defined_publisher_list[0].data_writer_list[0].listener_sender);
     let ca = s2::cond_addr(&p.domain_participant.user_defined_publisher_list[0].data_writer_list[0].status_condition);
     p.check_missed_writer_deadline(now1);
@@ -61,6 +64,8 @@ fn probe(real_channel: bool, real_cond: bool) {
 #[kani::stub(crate::dcps::channels::mpsc::MpscSender::send, super::support_part2::mpsc_send_recorder)]
 #[kani::stub(crate::dcps::status_condition::DcpsStatusCondition::add_communication_state, super::support_part2::add_state_recorder)]
 #[kani::stub(<alloc::string::String as core::clone::Clone>::clone, super::support_part2::string_clone_stub)]
+#[kani::stub(<core::slice::IterMut<'static, u8> as core::iter::Iterator>::next, super::support_part2::iter_mut_next_exact)]
+#[kani::stub(<alloc::vec::IntoIter<u8> as core::iter::Iterator>::next, super::support_part2::into_iter_next_exact)]
 fn c30_probe_v3_bothstub() {
     probe(false, false);
 }
